@@ -52,6 +52,30 @@ func NewStats() *Stats {
 		Classes: map[string]int{}, NonTrivial: map[string]int{}, Shapes: map[string]int{}}
 }
 
+const maxDistinct = 250000 // per worker: beyond this a distinct-counter is saturated, not grown
+
+// NT counts one non-trivial case under a key. Long keys are hashed; the set
+// stops growing at maxDistinct (the evidence then reports a lower bound).
+func (s *Stats) NT(key string) {
+	if len(key) > 96 {
+		i := strings.IndexByte(key, '|')
+		key = fmt.Sprintf("%s|#%016x", key[:max(i, 0)], rt.MixS(0, key))
+	}
+	if _, ok := s.NonTrivial[key]; !ok && len(s.NonTrivial) >= maxDistinct {
+		s.Probes["distinct-counter-saturated"]++
+		return
+	}
+	s.NonTrivial[key]++
+}
+
+func (s *Stats) shape(key string) {
+	k := fmt.Sprintf("%016x", rt.MixS(0, key))
+	if _, ok := s.Shapes[k]; !ok && len(s.Shapes) >= maxDistinct {
+		return
+	}
+	s.Shapes[k]++
+}
+
 func addMap(dst, src map[string]int) {
 	for k, v := range src {
 		dst[k] += v
@@ -673,12 +697,12 @@ func (ex *executor) judgeExchange(idx int, st *Step, xc *Exchange) {
 	}
 
 	if xc.Resp.Status >= 400 {
-		ex.res.Stats.NonTrivial["C17|"+class+fmt.Sprintf(" status=%d", xc.Resp.Status)]++
+		ex.res.Stats.NT("C17|" + class + fmt.Sprintf(" status=%d", xc.Resp.Status))
 	}
 	if cfg.Hostile && len(ex.seam.Calls) > 0 {
-		ex.res.Stats.NonTrivial["C03|"+st.Method+"|"+clipS(strings.ReplaceAll(st.Target, ex.w.Sandbox, "$SB"), 60)]++
+		ex.res.Stats.NT("C03|" + st.Method + "|target " + hostileFeatures(st.Target, ex.w.Sandbox))
 		if dv, ok := xc.Req.H["Destination"]; ok {
-			ex.res.Stats.NonTrivial["C03|"+st.Method+"|dest|"+clipS(strings.ReplaceAll(dv, ex.w.Sandbox, "$SB"), 60)]++
+			ex.res.Stats.NT("C03|" + st.Method + "|destination " + hostileFeatures(dv, ex.w.Sandbox))
 		}
 	}
 	if ex.curKnown && !st.Probe && (st.Method == "PUT" || st.Method == "DELETE") {
@@ -725,7 +749,7 @@ func (ex *executor) judgeExchange(idx int, st *Step, xc *Exchange) {
 	}
 
 	after := ex.snapshot()
-	ex.res.Stats.Shapes[shapeOf(after)]++
+	ex.res.Stats.shape(shapeOf(after))
 
 	if xc.Resp.Status == 207 {
 		ex.checkHrefs(idx, class, xc, after)
@@ -739,7 +763,7 @@ func (ex *executor) judgeExchange(idx int, st *Step, xc *Exchange) {
 	}
 	if xc.Resp.Status >= 400 {
 		if hadSomethingToDestroy(ex.snap, &xc.Req) {
-			ex.res.Stats.NonTrivial["C02|"+class]++
+			ex.res.Stats.NT("C02|" + class)
 		}
 		switch {
 		case diskFault:
@@ -755,7 +779,6 @@ func (ex *executor) judgeExchange(idx int, st *Step, xc *Exchange) {
 
 	// C01 / C04: the resource-tree model
 	if ex.judge != nil && !diskFault {
-		before := ex.judge.T.Shape()
 		fs := ex.judge.Step(&xc.Req, &xc.Resp)
 		diverged := false
 		for _, f := range fs {
@@ -778,13 +801,40 @@ func (ex *executor) judgeExchange(idx int, st *Step, xc *Exchange) {
 		}
 		nt := np.OK && (hasPath(ex.snap, np.Path) || changed != "")
 		if nt {
-			ex.res.Stats.NonTrivial["C01|"+before+"|"+class]++
+			ex.res.Stats.NT("C01|" + abstractShape(ex.snap) + "|" + class)
 			if xc.Req.Has("If-Match") || xc.Req.Has("If-None-Match") {
-				ex.res.Stats.NonTrivial["C04|"+class]++
+				ex.res.Stats.NT("C04|" + class)
 			}
 		}
 	}
 	ex.snap = after
+}
+
+// abstractShape forgets names and sizes: per depth, how many collections and
+// how many files there are.
+func abstractShape(s map[string]model.Entry) string {
+	var dirs, files [8]int
+	for p, e := range s {
+		d := 0
+		if p != "/" {
+			d = strings.Count(p, "/")
+		}
+		if d > 7 {
+			d = 7
+		}
+		if e.Dir {
+			dirs[d]++
+		} else {
+			files[d]++
+		}
+	}
+	var b strings.Builder
+	for d := 0; d < 8; d++ {
+		if dirs[d]+files[d] > 0 {
+			fmt.Fprintf(&b, "%d:%dc%df ", d, dirs[d], files[d])
+		}
+	}
+	return b.String()
 }
 
 func hasPath(s map[string]model.Entry, p string) bool { _, ok := s[p]; return ok }
@@ -807,6 +857,38 @@ func errKind(e string) string {
 		return e[i+2:]
 	}
 	return e
+}
+
+// hostileFeatures names the traversal devices a target or Destination uses.
+func hostileFeatures(s, sandbox string) string {
+	var f []string
+	has := func(name string, subs ...string) {
+		for _, x := range subs {
+			if strings.Contains(strings.ToLower(s), x) {
+				f = append(f, name)
+				return
+			}
+		}
+	}
+	has("abs-host-path", strings.ToLower(strings.TrimPrefix(sandbox, "/")))
+	has("dotdot", "..")
+	has("enc-dot", "%2e", "%c0%ae", "%e0%80%ae", "%ef%bc%8e", "%u002e", "%252e")
+	has("enc-slash", "%2f", "%c0%af")
+	has("backslash", "\\", "%5c")
+	has("nul", "%00")
+	has("prefix-twin", "-evil", ".bak")
+	has("sibling", "sibling", "canary")
+	has("authority", "http://", "//dav.test", "https://")
+	has("semicolon", ";")
+	has("query-or-fragment", "?", "#")
+	has("dot-space", ". ", ".%20", "%20.")
+	if len(s) > 300 {
+		f = append(f, "long")
+	}
+	if len(f) == 0 {
+		return "plain"
+	}
+	return strings.Join(f, "+")
 }
 
 func requestCarries(st *Step, leak string) bool {
